@@ -12,7 +12,8 @@ Init == l = 1 /\ bad = 0
 Next ==
     /\ l <= Len(Recs)
     /\ LET r == Recs[l]
-           v == Verdict(r.ctx, Canon(r.x), r.hasn, r.n, r.out)
+           v == IF "vo" \in DOMAIN r THEN ValueVerdict(r.ctx, Canon(r.x), r.out)
+                ELSE Verdict(r.ctx, Canon(r.x), r.hasn, r.n, r.out)
        IN  /\ IF v = "ok" THEN TRUE ELSE PrintT(<<"MM", r.tid, v>>)
            /\ bad' = IF v = "ok" THEN bad ELSE bad + 1
     /\ l' = l + 1
